@@ -1011,7 +1011,7 @@ def srs(
 
     (coeffunc, methfunc, rollfunc, ptr) = _process_inputs(stype, peak, rolloff, time)
     freq = np.atleast_1d(freq)
-    wn = 2 * pi * freq
+    wn = 2 * pi * freq.astype(float)
     LF = len(freq)
     sig = np.atleast_1d(sig)
     if sig.ndim == 1:
